@@ -349,7 +349,9 @@ class BaseFileWriterSession(BaseWriterSession):
             return self._filename
 
     def discard_document(self, response: BaseResponse):
-        if self._filename and os.path.exists(self._filename):
+        # Another download may meanwhile have made a directory of that name
+        # (/dir redirects to /dir/ while /dir/x is being saved).
+        if self._filename and os.path.isfile(self._filename):
             os.remove(self._filename)
 
     def extra_resource_path(self, suffix: str) -> str:
